@@ -1484,7 +1484,15 @@ class ClientRequest(ClientRequestBase):
             # Force headers to be sent before waiting for 100-continue
             writer.send_headers()
             await writer.drain()
-            await self._continue
+            try:
+                await self._continue
+            except asyncio.CancelledError:
+                # A final response came instead of 100 Continue: the body
+                # the head announced is never sent, so the connection can't
+                # be reused
+                if self.chunked or self.headers.get(hdrs.CONTENT_LENGTH) != "0":
+                    conn.close()
+                raise
 
         protocol = conn.protocol
         assert protocol is not None
